@@ -53,6 +53,7 @@ import (
 	"reflect"
 	"runtime"
 	"slices"
+	"strings"
 	"sync/atomic"
 	_ "unsafe"
 
@@ -94,11 +95,14 @@ type interpreter struct {
 	goroutines         int32                  // atomically updated
 
 	// gosymx additions
-	px        *pathCtx        // current path (nil outside exploration)
-	sess      *Session        // shared program/session data
-	initPhase bool            // executing package initialisers (lenient externals)
-	curInstr  ssa.Instruction // last instruction visited (diagnostics)
-	depth     int
+	px            *pathCtx // current path (nil outside exploration)
+	sess          *Session // shared program/session data
+	initPhase     bool     // executing package initialisers (lenient externals)
+	presetDone    map[*ssa.Global]bool
+	depInitActive map[*ssa.Function]bool
+	failedInit    map[*ssa.Package]string // dependency packages whose initialiser could not be executed: their globals are unusable
+	curInstr      ssa.Instruction         // last instruction visited (diagnostics)
+	depth         int
 }
 
 type deferred struct {
@@ -134,6 +138,16 @@ func (fr *frame) get(key ssa.Value) value {
 		return constValue(key)
 	case *ssa.Global:
 		if r, ok := fr.i.globals[key]; ok {
+			if !fr.i.initPhase && key.Pkg != nil {
+				if f := key.Pkg.Func("init"); f != nil && f.Blocks == nil && !zeroGlobalOK[key.Pkg.Pkg.Path()] && !fr.i.presetErrVar(key, r) {
+					panic(engineError{"package variable " + key.String() + " of a package that is not executed from source (its initial value is unknown)"})
+				}
+			}
+			if len(fr.i.failedInit) > 0 && !fr.i.initPhase {
+				if why, bad := fr.i.failedInit[key.Pkg]; bad {
+					panic(engineError{"package variable " + key.String() + " of a package whose initialiser could not be executed (" + why + ")"})
+				}
+			}
 			return r
 		}
 	}
@@ -580,6 +594,9 @@ func callSSA(i *interpreter, caller *frame, callpos token.Pos, fn *ssa.Function,
 		}
 		defer fmt.Fprintf(os.Stderr, "Leaving %s%s.\n", fn, suffix)
 	}
+	if i.initPhase && caller != nil && fn.Synthetic == "package initializer" && fn.Pkg != nil && !i.depInitActive[fn] && !strings.HasPrefix(fn.Pkg.Pkg.Path(), "github.com/functionx/") {
+		return callDepInit(i, caller, callpos, fn)
+	}
 	fr := &frame{
 		i:      i,
 		caller: caller, // for panic/recover
@@ -885,4 +902,49 @@ func visitInstrLenient(fr *frame, instr ssa.Instruction) (k continuation) {
 		}
 	}()
 	return visitInstr(fr, instr)
+}
+
+// callDepInit runs the initialiser of a dependency package; if it cannot be executed (engine gap
+// or panic) the package is marked: any later use of one of its variables is an engine error, so
+// functions that do not depend on package state stay usable and nothing is silently wrong.
+func callDepInit(i *interpreter, caller *frame, callpos token.Pos, fn *ssa.Function) (res value) {
+	defer func() {
+		if r := recover(); r != nil {
+			if i.failedInit == nil {
+				i.failedInit = map[*ssa.Package]string{}
+			}
+			why := fmt.Sprint(r)
+			if len(why) > 120 {
+				why = why[:120]
+			}
+			i.failedInit[fn.Pkg] = why
+			res = nil
+		}
+	}()
+	if i.depInitActive == nil {
+		i.depInitActive = map[*ssa.Function]bool{}
+	}
+	i.depInitActive[fn] = true
+	return callSSA(i, caller, callpos, fn, nil, nil)
+}
+
+// zeroGlobalOK: packages not executed from source whose variables may be read as zero values.
+var zeroGlobalOK = map[string]bool{}
+
+// presetErrVar: a package-level `var X = errors.New("text")` of a package that is not executed
+// from source gets its value from the declaration, read from the package's source files.
+func (i *interpreter) presetErrVar(g *ssa.Global, cell *value) bool {
+	if i.presetDone[g] {
+		return true
+	}
+	msg, ok := i.sess.simpleErrVar(g.Pkg.Pkg.Path(), g.Name())
+	if !ok {
+		return false
+	}
+	if i.presetDone == nil {
+		i.presetDone = map[*ssa.Global]bool{}
+	}
+	i.presetDone[g] = true
+	*cell = i.newError(msg, iface{})
+	return true
 }
